@@ -10,7 +10,7 @@ from vlib.runner import Violation, sut
 ID = "C16"
 RULE = (
     "case = list of 0..15 events (ms-grid timestamps, us durations, duplicates) with data over keys {a,b,c} each present or absent, values from "
-    "{'x','y',1,2,null,['x'],['x','y']} x non-empty key list x filter key/values x count >= 0. Oracles: merge_events_by_keys against grouping by the tuple "
+    "{'x','y',1,2,null,['x'],['x','y'],0,'',[],'1','None',['1'],[1]} x non-empty key list x filter key/values x count >= 0. Oracles: merge_events_by_keys against grouping by the tuple "
     "((k present?, value) for k in keys): one output per group, same presence/value pattern, exact us duration sum, total conserved; chunk_events_by_key "
     "(every event has the key): subevents concatenate to the input, share the chunk's value, durations add up, runs maximal when input is time-sorted with "
     "all gaps < pulsetime; sort_by_*: ordered permutation of the same objects; limit_events: prefix; filter/exclude_keyvals: order-preserving complementary split; "
@@ -23,7 +23,7 @@ ASSUMPTIONS = [
     "chunk maximality is only demanded on time-sorted input whose gaps are all below the pulsetime",
 ]
 BASE_US = 1_600_000_000_000_000
-VALUES = ["x", "y", 1, 2, None, ["x"], ["x", "y"]]
+VALUES = ["x", "y", 1, 2, None, ["x"], ["x", "y"], 0, "", [], "1", "None", ["1"], [1]]  # incl. falsy values, which are values all the same
 
 
 def budget(tier):
@@ -54,7 +54,7 @@ def strategy(draw, tier="quick"):
         if evs and draw(st.integers(0, 7)) == 0:
             evs.append(json.loads(json.dumps(draw(st.sampled_from(evs)))))
     keys = draw(st.lists(st.sampled_from(["a", "b", "c"]), min_size=1, max_size=3, unique=True))
-    chunk_vals = [draw(st.sampled_from(["x", "x", "y", 1, ["x"]])) for _ in evs]
+    chunk_vals = [draw(st.sampled_from(["x", "x", "y", 1, 1, "1", ["x"]])) for _ in evs]
     return {
         "events": evs,
         "keys": keys,
